@@ -105,4 +105,97 @@ theorem digitsValue_magText (b x : Nat) (hb2 : 2 ≤ b) (hb36 : b ≤ 36) (hx : 
   have h := digitsValue_digitsRev b hb2 hb36 64 x [] hx
   simpa [magText, digitsValue] using h
 
+/-- text of a signed integer in base `b` (what `format_radix` produces when it does not panic,
+    and what `i64::to_string` produces for `b = 10`) -/
+def signedText (b : Nat) (n : Int) : List Nat :=
+  if n < 0 then 45 :: magText b (-n).toNat else magText b n.toNat
+
+/-- `from_str_radix` reads back the signed text of every `i64`, `i64::MIN` included. -/
+theorem fromStrRadix_signedText (n : Int) (b : Nat) (hb2 : 2 ≤ b) (hb36 : b ≤ 36)
+    (hn : inI64 n = true) : fromStrRadix (signedText b n) b = some n := by
+  rw [inI64_iff] at hn
+  unfold signedText
+  by_cases hneg : n < 0
+  · simp only [hneg, ↓reduceIte]
+    have hx : (-n).toNat < 2 ^ 64 := by omega
+    have hv := digitsValue_magText b (-n).toNat hb2 hb36 hx
+    have hne := magText_ne_nil b (-n).toNat
+    have hback : -(((-n).toNat : Nat) : Int) = n := by omega
+    cases hm : magText b (-n).toNat with
+    | nil => exact absurd hm hne
+    | cons c t =>
+      simp only [fromStrRadix]
+      rw [← hm, hv]
+      simp [hm, i64Min, hback]
+      omega
+  · simp only [hneg, ↓reduceIte]
+    have hx : n.toNat < 2 ^ 64 := by omega
+    have hv := digitsValue_magText b n.toNat hb2 hb36 hx
+    have hne := magText_ne_nil b n.toNat
+    have hsig := magText_not_sign b n.toNat (by omega) hb36
+    have hback : ((n.toNat : Nat) : Int) = n := by omega
+    cases hm : magText b n.toNat with
+    | nil => exact absurd hm hne
+    | cons c t =>
+      have hc := hsig c (by rw [hm]; simp)
+      simp only [fromStrRadix, hc.1, hc.2, ↓reduceIte]
+      rw [← hm, hv]
+      simp [i64Max, hback]
+      omega
+
+theorem formatRadix_eq_signedText (n : Int) (b : Nat) (hmin : n ≠ i64Min) :
+    formatRadix n b = .ok (signedText b n) := by
+  unfold formatRadix signedText
+  by_cases hneg : n < 0 <;> simp [hneg, hmin]
+
+/-- the most significant digit of a positive number is not zero -/
+theorem digitsRev_getLast (b : Nat) (hb2 : 2 ≤ b) : ∀ (fuel x : Nat), 0 < x → x < 2 ^ fuel →
+    ∃ d, (digitsRev b fuel x).getLast? = some d ∧ d ≠ 0 := by
+  intro fuel
+  induction fuel with
+  | zero => intro x h0 h1; simp at h1; omega
+  | succ fuel ih =>
+    intro x h0 hx
+    simp only [digitsRev]
+    by_cases hq : x / b = 0
+    · have hlt : x < b := by
+        rcases Nat.div_eq_zero_iff.mp hq with h | h
+        · omega
+        · exact h
+      refine ⟨x % b, by simp [hq], ?_⟩
+      rw [Nat.mod_eq_of_lt hlt]; omega
+    · have hx2 : x / b < 2 ^ fuel := by
+        have h1 : x / b ≤ x / 2 := Nat.div_le_div_left hb2 (by omega)
+        have h2 : 2 ^ (fuel + 1) = 2 * 2 ^ fuel := by rw [Nat.pow_succ]; omega
+        omega
+      obtain ⟨d, hd, hd0⟩ := ih (x / b) (Nat.pos_of_ne_zero hq) hx2
+      refine ⟨d, ?_, hd0⟩
+      simp only [hq, ↓reduceIte]
+      rw [List.getLast?_cons, hd]
+      rfl
+
+/-- … so the text of a positive number does not start with `0` -/
+theorem magText_head (b x : Nat) (hb2 : 2 ≤ b) (hb36 : b ≤ 36) (h0 : 0 < x) (hx : x < 2 ^ 64) :
+    ∃ c t, magText b x = c :: t ∧ c ≠ 48 := by
+  obtain ⟨d, hd, hd0⟩ := digitsRev_getLast b hb2 64 x h0 hx
+  have hdlt : d < b := digitsRev_lt b (by omega) 64 x d (List.mem_of_getLast? hd)
+  have hhead : (magText b x).head? = some (digitChar d) := by
+    simp [magText, List.head?_reverse, hd]
+  cases hm : magText b x with
+  | nil => simp [hm] at hhead
+  | cons c t =>
+    simp only [hm, List.head?_cons, Option.some.injEq] at hhead
+    refine ⟨c, t, rfl, ?_⟩
+    rw [hhead]
+    unfold digitChar
+    split <;> omega
+
+theorem magText_ascii (b x : Nat) (hb : 0 < b) (hb36 : b ≤ 36) : ∀ c ∈ magText b x, c < 128 := by
+  intro c hc
+  simp only [magText, List.mem_reverse, List.mem_map] at hc
+  obtain ⟨d, hd, rfl⟩ := hc
+  have := digitsRev_lt b hb 64 x d hd
+  unfold digitChar
+  split <;> omega
+
 end Conv
